@@ -17,7 +17,7 @@ def residue_cause(v):
 
 
 def run(ctx):
-    cases = pc.gen_cases(ctx, 150 if ctx.tier == "quick" else 6000, ctx.seed)
+    cases = pc.gen_cases(ctx, 150 if ctx.tier == "quick" else 3000, ctx.seed)
     mm, ns, ok = pc.evaluate(ctx, cases, "c12")
     sm = []
     for c in cases:
